@@ -68,7 +68,8 @@ def chunks(tier, seed):
 
 def floors(tier):
     f = {"monitors": {"value.vs_oracle": 20000, "conservation.state": 20000, "rpn.semantic": 10000,
-                      "opobj.vs_oracle": 100, "minmax.order_independent": 500},
+                      "opobj.vs_oracle": 100, "minmax.order_independent": 500,
+                      "failed_statement.leaves_nothing_behind": 300},
          "classes": {"form:expr": 5000, "form:assign_new": 500, "form:assign_existing": 500, "form:coord": 500,
                      "form:reflex": 200, "needs_parentheses": 2000, "left_assoc_same_prec": 1000, "neg": 1000,
                      "neg_bare_after_additive": 100, "scalar_left": 1000, "scalar_right": 1000, "scalar_scalar": 300,
@@ -366,6 +367,17 @@ def cases(chunk):
                         names.append(f["target"])
                 st = dict(f, ast=ast, via="getitem" if rng.random() < 0.2 else "operate")
                 stmts.append(st)
+            if rng.random() < 0.25 and len(stmts) >= 2:
+                # error path: a statement that cannot be evaluated (it names a feature the track does not have)
+                # stops half-way, after its first sub-expressions were computed; the statements after it must still
+                # evaluate to ordinary arithmetic
+                bad = rng.choice(["({a}+{b})*q", "{a}*2+zz", "SUM{{{a}*{b}}}+nope", "c=({a}*2)+qq", "AVG{{{a}}}-{b}*q",
+                                  "{a}/({b}+1)-w9*2"]).format(a=rng.choice(NAMES), b=rng.choice(NAMES))
+                stmts.insert(rng.randrange(0, len(stmts)), {"form": "fail", "text": bad, "ast": ["num", "0"], "via": "operate"})
+                if rng.random() < 0.5:
+                    stmts.append(dict(form="expr", via="operate",
+                                      ast=["bin", "+", ["fn", rng.choice(["AVG", "SUM", "MAX", "MIN"]), ["var", rng.choice(NAMES)]],
+                                           ["var", rng.choice(NAMES)]]))
             c["stmts"] = stmts
             c["kind"] = "seq"
             yield c
@@ -513,6 +525,26 @@ def judge_stmt(tr, env, n, stmt, ctx, cls):
     ast = stmt["ast"]
     form = stmt["form"]
     cls.add("form:" + form)
+    if form == "fail":
+        text = stmt["text"]
+        stmt["_text"] = text
+        stmt["_nops"] = 2
+        before = state(tr)
+        got = M.call(tr.operate, text)
+        after = M.call(state, tr)
+        ctx.monitor("failed_statement.leaves_nothing_behind")
+        if not M.is_raised(got):
+            return "violated", {"what": "an expression naming a feature the track does not have was evaluated",
+                                "expression": text, "got": got}
+        if M.is_raised(after):
+            return "violated", {"what": "track unreadable after a statement that could not be evaluated",
+                                "expression": text, "raised": after}
+        p = diff_state(before, after)
+        if p:
+            return "violated", {"what": "a statement that could not be evaluated left something behind on the track "
+                                        "(nothing may change without a completed '=')", "expression": text,
+                                "problem": p, "how_it_failed": got}
+        return "held", None
     tree_classes(ast, cls)
     if not E.well_typed(ast):
         return "ood", "function applied to a literal"
